@@ -611,28 +611,23 @@ class IH5Group(IH5InnerNode):
             if isinstance(prev_val, (IH5Group, IH5Dataset)):
                 raise ValueError("Path exists, in order to replace - delete first!")
 
-        # First create the dataset under a temporary name ('@' cannot occur in user keys):
-        # if h5py refuses the value, nothing has been touched yet - in particular no
-        # deletion marker has been removed and no intermediate group has been created.
-        tmp_path = "/@new_dataset"
-        self._files[-1].create_dataset(
-            tmp_path, shape=shape, dtype=dtype, data=data, **kwargs
+        # First create the dataset anonymously (not linked under any name): if h5py
+        # refuses the value - at conversion or at write time - nothing has been touched,
+        # in particular no deletion marker was removed and no intermediate group created.
+        new_ds = self._files[-1].create_dataset(
+            None, shape=shape, dtype=dtype, data=data, **kwargs
         )
-        try:
-            if path in self._files[-1] and _node_is_del_mark(
-                self._get_child_raw(path, self._last_idx)
-            ):
-                # remove deletion marker in latest patch, if set
-                del self._files[-1][path]
-            elif path not in self._files[-1]:
-                # create path and overwrite-group in latest patch
-                self._create_virtual(path)
-                assert path in self._files[-1]
-                del self._files[-1][path]
-            self._files[-1].move(tmp_path, path)  # actually put it in place, finally
-        except Exception:
-            del self._files[-1][tmp_path]
-            raise
+        if path in self._files[-1] and _node_is_del_mark(
+            self._get_child_raw(path, self._last_idx)
+        ):
+            # remove deletion marker in latest patch, if set
+            del self._files[-1][path]
+        elif path not in self._files[-1]:
+            # create path and overwrite-group in latest patch
+            self._create_virtual(path)
+            assert path in self._files[-1]
+            del self._files[-1][path]
+        self._files[-1][path] = new_ds  # actually link it into place, finally
         return IH5Dataset(self._record, path, self._last_idx)
 
     def require_group(self, name: str) -> IH5Group:
